@@ -181,6 +181,8 @@ def cases(tier):
                     cs.append(domain_case(name, mk, info, "grid", n, k, False))
         if prod:
             continue
+        if quick and info.get("fam") in ("bool", "nested") and "Interval" not in name:
+            continue  # boundary sampling of 2-D Boolean combinations: thorough tier (heavy non-linear queries)
         kb = ks[-1]
         for n in ns_rand:
             cs.append(domain_case(name, mk, info, "random", n, kb, True))
